@@ -37,7 +37,8 @@ written without reference to BoxDispatcher:
     handed to the caller, with that call's own outcome (the response computed
     from its own id and naming the answering peer; the declared exception class
     of its own command carrying its own id; UnknownRemoteError for undeclared
-    errors and for commands nobody handles);
+    errors; UnhandledCommand -- or UnknownRemoteError -- for a command the peer
+    has no responder for);
   * when a side sees connectionLost every call of that side still pending fires
     with the reason given to connectionLost; a call issued afterwards (also one
     issued from inside such an errback) has failed by the time callRemote
@@ -404,7 +405,7 @@ OK_MODES = ("ok", "later-ok", "nest")
 
 def outcome_of(cmd, mode):
     if cmd == "M":
-        return "unknown"
+        return "unhandled"
     if mode in OK_MODES:
         return "ok"
     if mode in ("err", "later-err"):
@@ -621,6 +622,12 @@ def check_outcome(world, model, cid, want):
     if want == "unknown":
         if not isinstance(out.value, amp.UnknownRemoteError):
             return "call %d should fail with UnknownRemoteError, got %r" % (cid, out.value)
+        return None
+    if want == "unhandled":
+        # the peer has no responder: amp.UnhandledCommand is the documented protocol error for that
+        # (UnknownRemoteError would also fit the statement)
+        if not isinstance(out.value, (amp.UnhandledCommand, amp.UnknownRemoteError)):
+            return "call %d (no responder at the peer) should fail with UnhandledCommand, got %r" % (cid, out.value)
         return None
     if want == "lost":
         reason = world.reasons[c["side"]]
@@ -906,21 +913,36 @@ def _useful(seq):
     return seq[0][0] == "c" or seq[0][0] == "x"
 
 
+# a smaller alphabet on which longer schedules stay enumerable: complete round trips, late
+# answers and follow-up calls need 5-6 steps
+CORE = (
+    C("A", "E", "ok"), C("A", "S", "later-err"),
+    C("B", "E", "later-ok", ("E", "ok")),
+    D("A"), D("B"), F("A"), F("B"), X("A"),
+)
+
+
 class ShortInterleavings(Bounded):
     prop = "C31"
     title = ("two real AMP peers vs. a message-level model on EVERY schedule of bounded length over a 13-step alphabet "
              "(calls from both sides, whole and partial deliveries both ways, late answers, loss of either side)")
-    scope = ("all sequences of length <= 4 (quick) / <= 5 (thorough) over: A calls Echo(ok) / Sum(declared error later) "
-             "/ Echo(undeclared error); B calls Sum(ok) / Echo(later, with a chained follow-up call); deliver all or 9 "
-             "bytes A->B or B->A; fire the oldest parked responder at A or B; A or B loses the connection; sequences "
-             "that start with a delivery/firing or fire where nothing can be parked are pruned; both sides always lose "
-             "the connection at the end")
+    scope = ("all sequences of length <= 4 (quick) / <= 5 (thorough) over 13 steps: A calls Echo(ok) / Sum(declared "
+             "error later) / Echo(undeclared error); B calls Sum(ok) / Echo(later, with a chained follow-up call); "
+             "deliver all or 9 bytes A->B or B->A; fire the oldest parked responder at A or B; A or B loses the "
+             "connection; plus all sequences of length 5 (quick) / 5..6 (thorough) over an 8-step core of that "
+             "alphabet (A: Echo ok, Sum later-err; B: Echo later-ok + chained call; whole deliveries; firings; A "
+             "lost); sequences that start with a delivery/firing, or fire where nothing can be parked, are pruned; "
+             "both sides always lose the connection at the end")
     functions = CutAtEveryByte.functions
 
     def cases(self, tier, rng):
         top = 4 if tier == "quick" else 5
         for n in range(1, top + 1):
             for seq in itertools.product(ALPHABET, repeat=n):
+                if _useful(seq):
+                    yield seq
+        for n in ((5,) if tier == "quick" else (6,)):
+            for seq in itertools.product(CORE, repeat=n):
                 if _useful(seq):
                     yield seq
 
@@ -954,15 +976,15 @@ def random_schedule(rng, size, calm):
             ncalls += 1
         elif r < 0.75:
             src = rng.choice(SIDES)
-            n = rng.choice((0, 0, 0, 1, 2, 3, 5, 8, 13, 21, 34, 55, 89))
+            n = rng.choice((0, 0, 0, 0, 0, 0, 0, 1, 2, 3, 5, 8, 13, 21, 34, 55, 89))
             if n and rng.random() < 0.3:
                 steps.append(("b", src, n))
             else:
                 steps.append(D(src, n))
-        elif r < 0.95:
+        elif r < 0.97:
             steps.append(F(rng.choice(SIDES), rng.randrange(4)))
         else:
-            if not calm or rng.random() < 0.3:
+            if not calm or rng.random() < 0.2:
                 steps.append(X(rng.choice(SIDES), rng.choice(("lost", "done"))))
     return tuple(steps)
 
@@ -971,14 +993,14 @@ class RandomSchedules(Bounded):
     prop = "C31"
     title = ("two real AMP peers vs. a message-level model on seeded random long schedules: all commands and responder "
              "modes from both sides, chained and nested calls, random chunk sizes down to single bytes, losses anywhere")
-    scope = ("seeded random schedules of 8..60 steps (quick: 1500, thorough: 30000), half of them 'calm' (no fatal / "
+    scope = ("seeded random schedules of 8..60 steps (quick: 3000, thorough: 40000), half of them 'calm' (no fatal / "
              "undeclared errors, rare losses) so that long exchanges with many calls in flight happen; chunk sizes "
              "from {all,1,2,3,5,8,...,89}, also byte-at-a-time; schedule continues after a loss (late answers, calls "
              "after the loss)")
     functions = CutAtEveryByte.functions
 
     def cases(self, tier, rng):
-        count = 1500 if tier == "quick" else 30000
+        count = 3000 if tier == "quick" else 40000
         for i in range(count):
             yield random_schedule(rng, rng.randrange(8, 61), calm=(i % 2 == 0))
 
